@@ -23,11 +23,10 @@ def r1(ctx):
     ctx.check(P, rule, "the value is read for the proof's own block index", term_has_call(idx, CVP_CORE) == cv[0] and term_sig(strip(idx)).endswith(".index") and ".block" in term_sig(idx), "get(valueless_proof.block.index)",
               "get is called with %s" % term_str(idx)[:100], [site_desc(fa, gs[0])], key="C03|C03.R1|create_proof|index")
     # value.is_none() => Ok(None) without into_proof
-    sw = [x for x in bool_switches(fa, lambda o: o[0] == "call" and o[2].endswith("::is_some") and gs[0] in call_root_bb(o[3][0]))]
+    sw = [x for x in option_tests(fa, lambda v_: gs[0] in call_root_bb(v_))]
     if not need(ctx, P, rule, "create_proof: test of the value read", sw):
         return
-    b, o, tr, fl = sw[0]
-    none_e, some_e = fl, tr
+    b, o, some_e, none_e = sw[0]
     vals = [t for _, _, t in ret_values_in_region(fa, none_e)]
     okn = edge_returns_without(fa, none_e, ip)[0] and vals and all(is_agg(t, "Ok") and is_agg(agg_field(t, "0"), "None") for t in vals)
     ctx.check(P, rule, "a block that cannot be read yields no proof", okn, "value.is_none() => Ok(None), into_proof not reached", "the not-held edge reaches into_proof or returns %s" % [term_str(v)[:40] for v in vals], key="C03|C03.R1|create_proof|no proof without block")
